@@ -54,6 +54,13 @@ func runC18(c *Ctx) {
 	// ---- R2: rules are read-only on the tree and on the walker
 	r2 := c.Rule("R2", "no function of package rules writes a field of an ast node or of the Walker", 40)
 	treeWrites(c, e, scope, r2, "a rule")
+	// and nothing of the schema either (lists handed out by the schema's accessors included): another rule of the same
+	// list would see the change
+	if finds, _ := e.schemaWrites(scope); len(finds) > 0 {
+		for _, f := range finds {
+			r2.Fail(f.pos, p.FuncName(f.fn), f.construct, f.msg)
+		}
+	}
 
 	c18Validate(c)
 	c18Twins(c)
